@@ -2,6 +2,7 @@ import Vata.Parse
 import Vata.Generated.Tables
 import Vata.InclUpBdd
 import Vata.BddIsect
+import Vata.BddAbsTD
 /-! # Driver side of the BDD-encoding checks: `bddincl`, `bddinclall` (C07), `bddh`, `bddtd` (C08) -/
 open Vata
 
@@ -166,11 +167,30 @@ partial def go (enc : String) (steps res : List String) (k : Nat) (pool : List (
     | "unreach" =>
       let A ← ent 1; let D ← newDump
       if !(← getE (equivM D A FUEL) "fuel") then f := f ++ [s!"violation step {k} unreach-language {showTA D}"]
+      -- the L2 models of the symbolic trimmings as coded (`absTD_removeUnreachable…`, `absBU_removeUseless`, `tdUnreachWL_spec`):
+      -- the result is determined by the operand, so the dump must show exactly the model's rules and final states
+      let symsA := dedupL (A.rules.map (·.sym))
+      let M : TA := if enc == "td" then
+          ⟨Vata.BddAbsTD.absRulesTD symsA (Vata.BddAbsTD.removeUnreachableTD (Vata.BddAbsTD.ofRulesTD A.rules) A.final), A.final⟩
+        else
+          let r := Vata.BddAbsTD.removeUnreachableBU (Vata.BddAbs.ofRules A.rules) A.final
+          ⟨Vata.BddAbs.absRules symsA r.1, r.2⟩
+      if f.isEmpty && !(taEq ⟨dedupRulesB M.rules, M.final⟩ ⟨dedupRulesB D.rules, D.final⟩) then
+        f := f ++ [s!"mismatch step {k} symbolic RemoveUnreachableStates model: {showTA M} implementation {showTA D}"]
       pool' := pool ++ [some D]; touched := some newIx
     | "useless" =>
       let A ← ent 1; let D ← newDump
       if !(← getE (equivM D A FUEL) "fuel") then f := f ++ [s!"violation step {k} useless-language {showTA D}"]
       if !allUsefulB D then f := f ++ [s!"violation step {k} useless-leaves-useless-state-or-rule {showTA D}"]
+      let symsA := dedupL (A.rules.map (·.sym))
+      let M : TA := if enc == "td" then
+          let r := Vata.BddAbsTD.removeUselessTD (Vata.BddAbsTD.ofRulesTD A.rules) A.final
+          ⟨Vata.BddAbsTD.absRulesTD symsA r.1, r.2⟩
+        else
+          let r := Vata.BddAbsTD.removeUselessBU (Vata.BddAbs.ofRules A.rules) A.final
+          ⟨Vata.BddAbs.absRules symsA r.1, r.2⟩
+      if f.isEmpty && !(taEq ⟨dedupRulesB M.rules, M.final⟩ ⟨dedupRulesB D.rules, D.final⟩) then
+        f := f ++ [s!"mismatch step {k} symbolic RemoveUselessStates model: {showTA M} implementation {showTA D}"]
       pool' := pool ++ [some D]; touched := some newIx
     | _ => throw s!"unknown step {st}"
     -- no call changes the language of another automaton (tables may be shared: compare languages, not texts)
@@ -201,7 +221,13 @@ def checkToTd (args res : List String) : Except String (List String × String) :
   let mut f : List String := []
   if !(← getE (equivM bu A FUEL) "fuel") then f := f ++ ["violation bottom-up load+dump changes the language"]
   if !(← getE (equivM td bu FUEL) "fuel") then f := f ++ [s!"violation GetTopDownAut changes the language: {showTA td}"]
+  -- the L2 model of `GetTopDownAut` as coded (`absTD_invert_gen`, `getTopDownAut_lang`): inverts the table for the final
+  -- states and the states that occur in a tuple – the dump of the result must show exactly the model's rules
+  let symsA := dedupL (bu.rules.map (·.sym))
+  let M := Vata.BddAbsTD.absRulesTD symsA (Vata.BddAbsTD.getTopDownAut (Vata.BddAbs.ofRules bu.rules) bu.final)
+  if f.isEmpty && !(taEq ⟨dedupRulesB M, bu.final⟩ ⟨dedupRulesB td.rules, td.final⟩) then
+    f := f ++ [s!"mismatch GetTopDownAut model: {showTA ⟨M, bu.final⟩} implementation {showTA td}"]
   let e ← getE (emptyM A FUEL) "fuel"
-  pure (f, s!"empty={bchar e}")
+  pure (f, s!"empty={bchar e} dropped={bchar ((dedupRulesB td.rules).length < (dedupRulesB bu.rules).length)}")
 
 end BddChk
